@@ -197,8 +197,8 @@ def _find_dos_header(fh: BinaryIO, start_offset: int = 0, maxrange: int = 1024) 
     for offset in range(maxrange):
         if pe_offset is not None and start_offset + offset + dos_header_size > pe_offset:
             break
-        fh.seek(start_offset + offset, io.SEEK_SET)
         try:
+            fh.seek(start_offset + offset, io.SEEK_SET)
             mz = pestruct.IMAGE_DOS_HEADER(fh)
             if mz.e_lfanew >= dos_header_size and mz.e_lfanew < maxrange:
                 candidate_pe_offset = start_offset + offset + mz.e_lfanew
@@ -209,7 +209,8 @@ def _find_dos_header(fh: BinaryIO, start_offset: int = 0, maxrange: int = 1024) 
                 if optional_header_size.get(image.Machine) == image.SizeOfOptionalHeader:
                     found = (start_offset + offset, image.Machine)
                     pe_offset = candidate_pe_offset
-        except EOFError:
+        except (EOFError, ValueError, OSError):
+            # end of data, or a file object that refuses to seek beyond its end (mmap)
             continue
     return found
 
